@@ -97,8 +97,8 @@ macro_rules! ni_conf_dec_only {
     };
 }
 
-//@ harness name=aes128_ni_enc prop=C02,C03 tier=quick bits=256 stub=1 variants=aes:ni,aes:ni+zeroize,aes:ni+hazmat est=70 desc="W: Aes128::new(key).encrypt_block(b) (autodetect -> AES-NI arm) == FIPS-197 KeyExpansion + Cipher; all 2^128 keys x 2^128 blocks; round bodies and S-box uninterpreted (shared with the intrinsic models)"
-//@ harness name=aes128_ni_dec prop=C02,C03 tier=quick bits=256 stub=1 variants=aes:ni,aes:ni+zeroize,aes:ni+hazmat est=70 desc="W: Aes128::new(key).decrypt_block(b) (AES-NI arm, aesimc-transformed keys) == FIPS-197 EqInvCipher; all keys and blocks"
+//@ harness name=aes128_ni_enc prop=C02,C03 tier=quick bits=256 stub=1 variants=aes:ni,aes:ni+zeroize,aes:ni+hazmat est=85 desc="W: Aes128::new(key).encrypt_block(b) (autodetect -> AES-NI arm) == FIPS-197 KeyExpansion + Cipher; all 2^128 keys x 2^128 blocks; round bodies and S-box uninterpreted (shared with the intrinsic models)"
+//@ harness name=aes128_ni_dec prop=C02,C03 tier=quick bits=256 stub=1 variants=aes:ni,aes:ni+zeroize,aes:ni+hazmat est=85 desc="W: Aes128::new(key).decrypt_block(b) (AES-NI arm, aesimc-transformed keys) == FIPS-197 EqInvCipher; all keys and blocks"
 ni_conf!(aes128_ni_enc, aes128_ni_dec, crate::Aes128, 16);
 //@ harness name=aes192_ni_enc prop=C02,C03 tier=quick bits=320 stub=1 variants=aes:ni est=65 desc="W: Aes192 encrypt (AES-NI arm; 192-bit expansion with the shuffle() recombination) == FIPS-197; all keys and blocks"
 //@ harness name=aes192_ni_dec prop=C02,C03 tier=quick bits=320 stub=1 variants=aes:ni est=75 desc="W: Aes192 decrypt (AES-NI arm) == FIPS-197 EqInvCipher; all keys and blocks"
